@@ -48,7 +48,7 @@ pub fn hex(b: &[u8]) -> String {
 }
 /// the table as a Coq association list (input code points, hexadecimal digest code points)
 pub fn coq_table(t: &BTreeMap<Vec<u8>, Vec<u8>>) -> String {
-    coq_list(t.iter().map(|(k, v)| format!("({}, {})", coq_str(std::str::from_utf8(k).expect("hash input is a string")), coq_str(&hex(v)))))
+    coq_list(t.iter().map(|(k, v)| format!("({}, {})", pstr(std::str::from_utf8(k).expect("hash input is a string")), pstr(&hex(v)))))
 }
 
 // ---------------------------------------------------------------- terms
@@ -67,8 +67,27 @@ pub fn to_st<T: Term>(t: T) -> ST {
         }
     }
 }
+/// a string packed into one hexadecimal numeral (Model.v `U`): digit 1, then 6 digits per code point
+pub fn pstr(s: &str) -> String {
+    let mut o = String::from("(U 0x1");
+    for c in s.chars() {
+        o.push_str(&format!("{:06x}", c as u32));
+    }
+    o.push(')');
+    o
+}
+pub fn c_term(t: &ST) -> String {
+    match t {
+        SimpleTerm::Iri(i) => format!("(Iri {})", pstr(i.as_str())),
+        SimpleTerm::BlankNode(b) => format!("(Bnode {})", pstr(b.as_str())),
+        SimpleTerm::LiteralDatatype(l, dt) => format!("(LitDt {} {})", pstr(l), pstr(dt.as_str())),
+        SimpleTerm::LiteralLanguage(l, tag) => format!("(LitLang {} {})", pstr(l), pstr(tag.as_str())),
+        SimpleTerm::Triple(tr) => format!("(Triple {} {} {})", c_term(&tr[0]), c_term(&tr[1]), c_term(&tr[2])),
+        SimpleTerm::Variable(v) => format!("(Var {})", pstr(v.as_str())),
+    }
+}
 pub fn c_quad(q: &Q) -> String {
-    format!("({}, {}, {}, {})", coq_term(&q.0[0]), coq_term(&q.0[1]), coq_term(&q.0[2]), coq_opt(q.1.as_ref().map(|g| coq_term(g))))
+    format!("({}, {}, {}, {})", c_term(&q.0[0]), c_term(&q.0[1]), c_term(&q.0[2]), coq_opt(q.1.as_ref().map(|g| c_term(g))))
 }
 pub fn c_quads(d: &[Q]) -> String {
     coq_list(d.iter().map(c_quad))
@@ -763,7 +782,7 @@ fn check_one(tag: &str, d: &[Q], order: &[Q], out: &Outcome, spec: &Result<SpecO
 }
 
 fn c_idmap(m: &[(String, String)]) -> String {
-    coq_list(m.iter().map(|(k, v)| format!("({}, {})", coq_str(k), coq_str(v))))
+    coq_list(m.iter().map(|(k, v)| format!("({}, {})", pstr(k), pstr(v))))
 }
 
 pub fn run(mode: &str) {
@@ -808,7 +827,7 @@ pub fn run(mode: &str) {
                 check_one(&format!("limits ({},{}) in {}", df1000 as f32 / 1000.0, pl, STORES[store]), &d, &order, &out, &spec1, df1000, pl, &mut fails);
                 sum.bump(&format!("outcome:{}", ["ok", "unsupported-blank-predicate", "unsupported-term", "toxic-depth", "toxic-permutations", "panic"].get(out.code as usize).unwrap_or(&"other")));
                 if a.only.is_some() { println!("RUN limits=({df1000}/1000,{pl}) store={} order={} => code {} {} bytes={:?} idmap={:?}", STORES[store], show_d(&order), out.code, out.msg, out.bytes, out.idmap); }
-                body.push(format!("three_ok {once} tbl {df1000} {pl} {} {} {} {}", c_quads(&order), out.code, coq_str(&out.bytes), c_idmap(&out.idmap)));
+                body.push(format!("three_ok {once} tbl {df1000} {pl} {} {} {} {}", c_quads(&order), out.code, pstr(&out.bytes), c_idmap(&out.idmap)));
             }
             text.push_str(&format!(" limits=({dfg},{plg})"));
         } else {
@@ -848,8 +867,8 @@ pub fn run(mode: &str) {
                 println!("ORIGINAL store={} order={} => code {} {} bytes={:?} idmap={:?}", STORES[s1], show_d(&o1), out1.code, out1.msg, out1.bytes, out1.idmap);
                 println!("COPY store={} order={} => code {} {} bytes={:?} idmap={:?}", STORES[s2], show_d(&o2), out2.code, out2.msg, out2.bytes, out2.idmap);
             }
-            body.push(format!("impl_ok {once} tbl 1000 6 {} {} {} {}", c_quads(&o1), out1.code, coq_str(&out1.bytes), c_idmap(&out1.idmap)));
-            body.push(format!("impl_ok {once} tbl 1000 6 {} {} {} {}", c_quads(&o2), out2.code, coq_str(&out2.bytes), c_idmap(&out2.idmap)));
+            body.push(format!("impl_ok {once} tbl 1000 6 {} {} {} {}", c_quads(&o1), out1.code, pstr(&out1.bytes), c_idmap(&out1.idmap)));
+            body.push(format!("impl_ok {once} tbl 1000 6 {} {} {} {}", c_quads(&o2), out2.code, pstr(&out2.bytes), c_idmap(&out2.idmap)));
             text.push_str(&format!(" copy={}", show_d(&d2)));
         }
         let table = take_table();
